@@ -85,6 +85,7 @@ FSNAMES = ["os.File", "os.Open", "os.OpenFile", "os.CreateTemp", "os.MkdirTemp",
            "os.Symlink", "os.Chmod", "os.WriteFile", "os.ReadFile", "os.Stat", "os.Lstat", "os.ReadDir", "filepath.WalkDir"]
 
 STOR_ASSUME = [
+    "retriever is also instrumented with the scheduling rules and every call under test runs as a task of the seeded scheduler, so goroutines, locks or channels that a change adds to retriever are scheduled and replayed too (the unchanged code has none besides cursor selects)",
     "simdb stands in for the source and target databases: ids with gaps, property values from the domain a driver hands back (strings incl. non-BMP and escapes, bools, null, integral numbers as int64 up to 2^53, finite floats, nested lists/maps)",
     "simos forwards to a real tmpfs directory, so rename atomicity, O_EXCL, Lstat and symlink semantics are the kernel's; the interposer itself is trusted",
     "the instrumenter's os.X -> simos.X rewrite is a pure substitution (retriever's own tests pass under the overlay)",
@@ -95,7 +96,7 @@ CHECKS["C18"] = {
     "engine": "storage",
     "harness": "c18",
     "packages": ["retriever"],
-    "rules": "fs",
+    "rules": "sched,fs",
     "fsnames": FSNAMES,
     "level": "exploration",
     "budget": {"quick": 25, "thorough": 600},
@@ -115,7 +116,7 @@ CHECKS["C19"] = {
     "engine": "storage",
     "harness": "c19",
     "packages": ["retriever"],
-    "rules": "fs",
+    "rules": "sched,fs",
     "fsnames": FSNAMES,
     "level": "fault_enumeration",
     "budget": {"quick": 40, "thorough": 1200},
@@ -139,7 +140,7 @@ CHECKS["C20"] = {
     "engine": "storage",
     "harness": "c20",
     "packages": ["retriever"],
-    "rules": "fs",
+    "rules": "sched,fs",
     "fsnames": FSNAMES,
     "level": "fault_enumeration",
     "budget": {"quick": 40, "thorough": 1200},
